@@ -834,11 +834,28 @@ func c27SuccessorStrip(f *ssa.Function) bool {
 	}
 	// the loop keeps stripping only while the last remaining byte is 0xff
 	stripOK := false
-	for _, a := range condShapes(f) {
-		if a == "(255 == p0[(phi((cyc - 1) | len(p0)) - 1)])" || a == "(255 != p0[(phi((cyc - 1) | len(p0)) - 1)])" {
+	allInstrs(f, func(in ssa.Instruction) {
+		ifi, ok := in.(*ssa.If)
+		if !ok {
+			return
+		}
+		bo, ok := ifi.Cond.(*ssa.BinOp)
+		if !ok || (bo.Op != token.EQL && bo.Op != token.NEQ) {
+			return
+		}
+		isFF := func(v ssa.Value) bool { k, ok := constInt(v); return ok && k == 255 }
+		isLast := func(v ssa.Value) bool {
+			u, ok := stripConv(v).(*ssa.UnOp)
+			if !ok || u.Op != token.MUL {
+				return false
+			}
+			ia, ok := u.X.(*ssa.IndexAddr)
+			return ok && ia.X == ssa.Value(p) && isNm1(ia.Index)
+		}
+		if isFF(bo.X) && isLast(bo.Y) || isFF(bo.Y) && isLast(bo.X) {
 			stripOK = true
 		}
-	}
+	})
 	var m *ssa.MakeSlice
 	copyOK, incOK := false, false
 	allInstrs(f, func(in ssa.Instruction) {
